@@ -214,7 +214,7 @@ class Builder:
         self.top_scopes = []
         self.cur = None  # current FileModel
         self.stats = {"homonyms": 0, "decoys": 0, "renames": 0, "only": 0, "reexport": 0, "inherited": 0, "shadow": 0, "constructs": 0,
-                      "member_chain": 0, "same_line_dups": 0, "quote_mix": 0, "unnamed_interfaces": 0, "io_end_file": 0, "rename_lists": 0, "double_names": 0, "more_constructs": 0, "external_procs": 0, "enums": 0, "interface_bodies": 0, "subscripted": 0, "assoc_objects": 0}
+                      "member_chain": 0, "same_line_dups": 0, "quote_mix": 0, "unnamed_interfaces": 0, "io_end_file": 0, "rename_lists": 0, "double_names": 0, "more_constructs": 0, "external_procs": 0, "enums": 0, "interface_bodies": 0, "subscripted": 0, "assoc_objects": 0, "if_call": 0}
         self.construct_id = 0
         self.loopvars = []
         self.scope_stack = []
@@ -992,6 +992,10 @@ class Builder:
             if subs:
                 n, p = self.d_pick(sorted(subs, key=lambda x: (x[0], x[1].id)))
                 toks = ["call ", Ref(p, "call", n), "("]
+                if self.d_bool(4):
+                    # a CALL as the action of a one-line IF
+                    self.stats["if_call"] += 1
+                    toks = ["if (", *self.expr(sc, T_INT, 1), self.d_pick([" > 0) ", " > 0)  ", ">0) "])] + toks
                 for i, d in enumerate(p.dummies):
                     if i:
                         toks.append(", ")
@@ -1213,6 +1217,14 @@ def fix_interfaces(prog):
                 stack.pop()
             out.append(s)
         f.stmts = out
+
+
+def call_name_index(toks):
+    """Index of the reference that follows the CALL keyword of a statement ('call s(..)', 'if (c) call s(..)'), or None."""
+    for i, t in enumerate(toks[:-1]):
+        if t == "call " and isinstance(toks[i + 1], Ref):
+            return i + 1
+    return None
 
 
 def chain_prev(toks, ti):
